@@ -229,7 +229,42 @@ PENDING = {}
 NOT_APPLICABLE = {}
 
 
+# rules added in the third round of building (appended to the texts above so that each property's claim lists all of its deciding rules; RULES.md is the full inventory)
+ADDENDA = {
+    "C01": ("typestate of the completeness flag in computeDAGup (test of the direct parent precedes the fallback climb), containment of proposed tensor sets",
+            " Added: the flag that admits the Kronecker algorithm is decided by the direct parent lookup on every path (D9); a proposed tensor set contains the current one (D8); dispatch on the rule instantiates the matching templates (D7).",
+            ""),
+    "C02": ("freshness of the Sequence/Fourier coefficients behind integrate(), coherence of the size-validated parent-DAG cache behind local polynomial quadrature weights",
+            " Added: D6.fresh (coefficients recomputed after every change of values or points in the Sequence and Fourier grids), D7.cache (every replacement of the point set refreshes the cache that is validated by size only).",
+            ""),
+    "C03": ("coherence of the size-validated parent-DAG cache behind the interpolation weights",
+            " Added: D7.cache (a point set replaced by another of the same size is never served by the stale parent DAG; found genuine defect F53).", ""),
+    "C04": ("completeness-flag typestate (shared with C01), chain-rule layout shared with C10, sibling agreement of the transform corrections applied by the integral routes",
+            " Added: D8.complete, D9.chain, D10.integrals (integrate, getQuadratureWeights and integrateHierarchicalFunctions must all apply the linear scale and the conformal weights; the last one does not: known finding F63).", ""),
+    "C05": ("folding of the high-order Lagrange basis (loops and stateful local lambdas executed on concrete point indexes, x symbolic)",
+            " Added: D1.power - for every local rule, orders {unbounded, 4, 5, 6} and point classes up to depth 13 (17 in the thorough tier) d/dx evalPWPower == diffPWPower as polynomial identities; D6.fill, D7.guard.", ""),
+    "C06": ("typestate of members stored under one emptiness flag, order of reader-side rebuilds",
+            " Added: D10.group (a method that sets the member tested by the writer also sets the members stored under that test; genuine defect F55), D5.order, D8.listorder, D9.counts.", ""),
+    "C08": ("variant selection between a loop that reads the limits and one that does not",
+            " Added: D6.unlimited (the variant without limit tests is selected by limits.empty() and nothing weaker; a local flag counts as its initialiser).", ""),
+    "C09": ("sibling agreement of the root-injection condition of the batch loaders", " Added: D9.batchroots, D5.eject over every registration site (Global and Fourier).", ""),
+    "C10": ("control-dependence independence of linear and conformal corrections, routing of every call into a grid class through the transforms (families read off the virtual interface)",
+            " Added: D6.independent (a correction of one transform is never guarded by a test of the other), D7.routing (user points in through formCanonicalPoints, grid points out through formTransformedPoints, integrals scaled by both transforms; known finding F63).", ""),
+    "C11": ("alias (self-copy) guard, folding of the output-range prologue of copyGrid",
+            " Added: D7.alias (the source is not read after the destination started to change unless source == this was tested), D8.range (the effective end of the output range is the documented one for 18 (outputs, end) cases); genuine defect F60.", ""),
+    "C12": ("non-const standard-container methods reached through pointer members, non-reentrant C library calls in the const closure",
+            " Added: D3 now covers std container mutators behind unique_ptr members; D4.libc (no lgamma/rand/strtok/... in the const closure; genuine defect F61).", ""),
+    "C13": ("injectivity of table-driven subscripts (justified list), purity (C12 closure) of const calls on shared objects inside parallel regions with a warm-up exception for state-guarded lazy caches",
+            " Added: D1 accepts a subscript that goes through a lookup table only from the justified list (3 tables); D8.purecalls (365 const calls on shared objects in regions have a pure closure, or a lazily filled cache warmed by a dominating serial call; genuine defect F62).", ""),
+    "C14": ("group typestate of the pending-refinement members (discovered from clearRefinement and the writer), nullable local smart pointers, negativity tests of stream counts that size containers, late failures in the API factories",
+            " Added: D12.group (no throwing call while the pending-refinement group is partially written; the member whose emptiness the writer tests is set together with its companions), D13.nullable, D14.sized, D8 over make*; D2 counts changes made through own non-const methods. Genuine defects F54-F59.", ""),
+}
+
+
 def main():
+    for pid, (tech_add, text_add, note_add) in ADDENDA.items():
+        tech, text, note, ref = CLAIMS[pid]
+        CLAIMS[pid] = (tech + "; " + tech_add, text + text_add, note + note_add, ref)
     props = [json.loads(l) for l in open(os.path.join(HERE, "properties.jsonl"))]
     checks = []
     na = []
